@@ -33,7 +33,11 @@ THEOREMS = [
     "Okane.Print.format_writes_prefix", "Okane.Print.alignment_le_length", "Okane.Print.trailing_no_underflow",
     "Okane.Print.numericPart_amt", "Okane.Print.std_numOK", "Okane.Print.std_symOK", "Okane.Print.std_numNoLF",
     "Okane.Print.entryLines_nlf",
+    "Okane.PrintersAgree.U19_gap", "Okane.PrintersAgree.U19_column", "Okane.PrintersAgree.U19_balance",
+    "Okane.PrintersAgree.U19_indent", "Okane.PrintersAgree.U19_blank", "Okane.PrintersAgree.format_agree",
+    "Okane.PrintersAgree.printEntry_agree", "Okane.PrintersAgree.not_agree_full", "Okane.PrintersAgree.not_agree_clear",
 ]
+EXTRA_IMPORTS = ["Okane.Lemmas.PrintersAgreeLayout"]
 
 # ------------------------------------------------------------------------------------------------
 # S-expressions (nested python lists; atoms are the percent-encoded strings of the line protocol)
@@ -791,7 +795,7 @@ def run(chk):
         "characters assumed (generators avoid ligature-like sequences; every printed line is measured at string level by the real library)",
         "chrono date rendering and rust_decimal Display/rescale are modelled (validated by the byte-for-byte comparison only)",
     ]
-    if not standard_prologue(chk, THEOREMS):
+    if not standard_prologue(chk, THEOREMS, imports=EXTRA_IMPORTS):
         return
     if chk.tier == "thorough":
         # independent re-check of the compiled proofs
